@@ -1,5 +1,5 @@
 import Litestream.Lemmas.LtxChain
-import Litestream.Model.CompactLevel
+import Litestream.Lemmas.CompactLevel
 /-!
 # C06 — Compaction never changes what is restored; levels stay contiguous
 
@@ -96,6 +96,22 @@ example : PlanChain 100 [] [⟨1, 1, 2, 10, [(1, 5), (2, 6)]⟩, ⟨2, 2, 2, 20,
     [⟨1, 2, 2, 20, [(1, 5), (2, 7)]⟩, ⟨3, 3, 3, 30, [(3, 8)]⟩] :=
   PlanChain.step (pre := []) (s1 := []) (s2 := [_, _]) (by simp) rfl
     (PlanChain.step (pre := [_, _]) (s1 := []) (s2 := [_]) (by simp) rfl (PlanChain.done _))
+
+
+/-- **Levels stay contiguous.** `Compactor.Compact(dst)` preserves the replica
+    invariant `RWF` (every level sorted, non-overlapping, contiguous; max-file
+    cache consistent with the listing; the end of each level is a file boundary of
+    the level below); the new file starts at `prev.maxTx + 1` of its level, ends
+    at the end of the source level, and is appended to its level. -/
+theorem level_wf_step {st st' : RState} {dst ts : Nat} {info : FileInfo} (h : RWF st)
+    (hc : compactLevel st dst ts = .ok (st', info)) :
+    RWF st' ∧ (st.files dst ≠ [] → info.min = endMax (st.files dst) + 1) ∧
+    info.max = endMax (st.files (dst - 1)) ∧ 1 ≤ info.min ∧ info.min ≤ info.max ∧
+    st'.files dst = st.files dst ++ [info] := compactLevel_wf h hc
+
+/-- Concrete instance: L0 = 1..4, L1 = [1-2] (cached): `Compact(1)` writes 3-4. -/
+example : (compactLevel ⟨fun l => if l = 0 then [⟨0,1,1,1⟩, ⟨0,2,2,2⟩, ⟨0,3,3,3⟩, ⟨0,4,4,4⟩] else if l = 1 then [⟨1,1,2,2⟩] else [],
+    fun l => if l = 1 then some ⟨1,1,2,2⟩ else none⟩ 1 4).toOption.map (·.2) = some ⟨1, 3, 4, 4⟩ := by decide
 
 end C06
 end Litestream
